@@ -471,6 +471,15 @@ def run_check(prop, tier, seed, t0, no_mc=False):
         'checker_cmd': 'bin/check %s --tier %s' % (prop, tier),
         'trace_validation_tlc_states': tstates,
     }
+    # supplementary, never a verdict: the unbounded inductive invariant of the shrink loop (Apalache), thorough C01 only
+    if prop == 'C01' and tier == 'thorough':
+        import subprocess
+        try:
+            pr = subprocess.run([os.path.join(vlib.ROOT, 'bin', 'apalache_shrink')], stdout=subprocess.PIPE, stderr=subprocess.STDOUT, text=True, timeout=1500)
+            coverage['apalache_shrink_loop'] = (pr.stdout.strip().split('\n') or [''])[-1]
+        except Exception as e:
+            coverage['apalache_shrink_loop'] = 'not run: %s' % e
+        log('[apalache] %s' % coverage['apalache_shrink_loop'])
     vlib.write_evidence(prop, tier, seed, coverage, time.time() - t0, len(seen), plan['assumptions'])
     log('[done] %s tier=%s cases=%d nontrivial=%d violations=%d known=%s drift=%d wall=%.1fs' %
         (prop, tier, judged, len(nontriv), len(seen), known_hits, len(drift), time.time() - t0))
